@@ -475,3 +475,29 @@ func H_C08_concurrent_writers() {
 	verifAssert(all == before+a+b || all == before+b+a, "C08.concurrent.each-event-once-and-whole")
 	verifReach("C08.concurrent.end")
 }
+
+// the sink's directory is created on demand (mode 0700), the first file gets the configured mode, 0600 when unset
+func H_C15_fresh_directory() {
+	fsInit()
+	dir := fsDir + "/a/b"
+	s := &FileSink{Path: dir, FileName: "audit.log", Format: "custom"}
+	s.Mode = os.FileMode(nondetInt())
+	verifAssume(s.Mode >= 0)
+	verifAssume(s.Mode <= 0777)
+	s.TimestampOnlyOnRotate = nondetBool()
+	s.MaxBytes = nondetInt()
+	_, err := s.Process(context.Background(), &Event{Type: "t", Formatted: map[string][]byte{"custom": []byte("<e>\n")}})
+	verifAssert(err == nil, "C15.fresh-directory.first-write-succeeds")
+	if err != nil || s.f == nil {
+		return
+	}
+	verifAssert(verifDirMode(dir) == 0700, "C15.fresh-directory.created-with-0700")
+	m := verifFileMode(s.f.Name())
+	if s.Mode != 0 {
+		verifAssert(m == int(s.Mode), "C15.fresh-directory.file-has-configured-mode")
+	} else {
+		verifAssert(m == 0600, "C15.fresh-directory.file-has-0600-when-unset")
+	}
+	verifAssert(verifFDContent(s.f) == "<e>\n", "C15.fresh-directory.event-written")
+	verifReach("C15.fresh-directory.end")
+}
